@@ -67,3 +67,22 @@ Theorem C01_flat_language_any_flags : forall flags isb ts,
     forall n, C01Flat.Mseq rs n [] <-> C01Flat.Den (WcParse.has flags Consts.Mwcparse.DOTMATCH) true ts n.
 Proof. exact C01Ext.C01_flat_language_any_flags. Qed.
 Print Assumptions C01_flat_language_any_flags.
+
+(* ---- extended groups of literal alternatives, end to end ------------------------------------------------------------------
+   A pattern made of chunks - flat runs (as above) and groups `?(a|bc)`, `*(…)`, `+(…)`, `@(…)` whose alternatives are
+   literal texts over characters that are not special anywhere - under EXTMATCH: the parser model prints
+   `(?:a|bc)?`, `(?:…)*`, `(?:…)+`, `(?:…)` for the groups, and the whole regex matches a name exactly when the name
+   splits into one part per chunk, a flat run meaning what it means above (its look-aheads see the text matched by the
+   later chunks), `@` one alternative, `?` none or one, `*` any concatenation, `+` at least one (C01Ext.DenC). *)
+Theorem C01_ext_language : forall flags isb cs,
+  C01Ext.cwf cs = true ->
+  WcParse.has flags Consts.Mwcparse.PATHNAME = false -> FlagFuns.is_unix_style WcParse.linux flags = true ->
+  WcParse.has flags Consts.Mwcparse.EXTMATCH = true ->
+  WcParse.has flags Consts.Mwcparse.u_ANCHOR = false -> WcParse.has flags Consts.Mwcparse.MATCHBASE = false ->
+  WcParse.has flags Consts.Mwcparse.u_EXTMATCHBASE = false -> WcParse.has flags Consts.Mwcparse.u_TRANSLATE = false ->
+  exists xs,
+    WcParse.wcparse WcParse.linux flags isb (C01Ext.unparse_cs cs) =
+      inl (S_ "^(?s" ++ (if FlagFuns.get_case WcParse.linux flags then [] else S_ "i") ++ S_ ":" ++ C01Ext.printx xs ++ S_ ")$") /\
+    forall n, C01Ext.Mseqx xs n [] <-> C01Ext.DenC (WcParse.has flags Consts.Mwcparse.DOTMATCH) true cs n.
+Proof. exact C01Ext.C01_ext_language. Qed.
+Print Assumptions C01_ext_language.
